@@ -13,13 +13,11 @@
       [serve_decision fx], [serve_proxy fx], [serve_envoy fx]  = error kind | matched rule + hand-over of
     the three entry points.  [fx : fixes] says which recorded findings are repaired in the modelled tree
     (one flag per finding with a repair: F1 = fix: b2286d8, F2 = 7c3e9fc, F3 = a5ef279, F4 = ae6db4f,
-    F6 = 06faa19, F7 = 19923cd; F9 = candidate fixes/C13-F9.diff).  [pinned] = none, [all_fixed] = all,
-    [repo_now] = all but F9 and F11 (/repo today).  Every theorem holds for every [fx]; the guard of a repaired
+    F6 = 06faa19, F7 = 19923cd, F9 = 58408fc, F11 = 9fe653a).  [pinned] = none, [repo_now] = [all_fixed]
+    = all of them (/repo today).  Every theorem holds for every [fx]; the guard of a repaired
     finding is switched off, so for [repo_now] only C13-F5 (a Cookie(n) read whose OWN parts of the Cookie
     line are not plain; sanitised cookie values on hand-over), C13-F8 (Headers() read as a whole map: the
-    key Host — every other key agrees, [C13_headers_agree_except_host]), C13-F9 (the body when Envoy conveys
-    it in the string field), C13-F11 (a request with a query string when Envoy conveys the request target
-    the documented way, query inside [path]: lookup, captures and query differ) and C13-F3b (blanks around the values of a header that is added twice) guard
+    key Host — every other key agrees, [C13_headers_agree_except_host]) and C13-F3b (blanks around the values of a header that is added twice) guard
     anything.  [l_pack L] says which CheckRequest field carries the body under Envoy; all statements
     hold for each conveyance.  The pinned behaviour of each repaired finding is
     kept as a [..._pinned_refuted] witness.
@@ -45,29 +43,28 @@ Print Assumptions C13_three_entry_points_agree_repo.
 (** (Read-outs of the guard definitions for [repo_now]; by unfolding.  Listed for the reader, not
     counted as property theorems.) *)
 Lemma C13_repo_guards : forall decode s caps L q,
-  guard_query decode repo_now s caps L q = g_F5_query L q || g_F8_query q || g_F9_query L q.
+  guard_query decode repo_now s caps L q = g_F5_query L q || g_F8_query q.
 Proof. exact repo_guards. Qed.
 
 Lemma C13_repo_guards_fire : forall decode find L,
   guards_fire decode find repo_now L =
-  g_F11 L ||
   match find (lookup_of (build_http L)) with
   | None => false
   | Some (rl, caps) =>
     let ans := answer (acc_http decode L) (http_mech L (r_slashes rl) caps) in
-    existsb (fun q => g_F5_query L q || g_F8_query q || g_F9_query L q) (trace ans (rule_prog rl)) ||
+    existsb (fun q => g_F5_query L q || g_F8_query q) (trace ans (rule_prog rl)) ||
     g_F3_adds true (snd (run_prog ans (rule_prog rl))) || g_F5_adds (snd (run_prog ans (rule_prog rl)))
   end.
 Proof. exact repo_guards_fire. Qed.
 
 (** the encoded-slash check rejects at all entry points alike *)
 Theorem C13_slash_check_agrees_repo : forall find L rl caps,
-  wf_lreqb L = true -> g_F11 L = false ->
+  wf_lreqb L = true ->
   find (lookup_of (build_http L)) = Some (rl, caps) ->
   g_F4_decision (r_slashes rl) L = true ->
   mech_view find true (build_http L) = inl EArgument /\
   mech_view find (fx_F1 repo_now) (build_envoy (fx_F4 repo_now) (norm_envoy (fx_F11 repo_now) (mk_envoy L))) = inl EArgument.
-Proof. intros find L rl caps W G. apply (slash_check_agrees find true false L rl caps W). rewrite G. reflexivity. Qed.
+Proof. intros find L rl caps W. exact (slash_check_agrees find true true L rl caps W eq_refl). Qed.
 Print Assumptions C13_slash_check_agrees_repo.
 
 (** ------------------------------------------------------------------ every tree (any subset of the repairs) *)
@@ -286,25 +283,25 @@ Theorem C13_F5_refuted_handover : forall fixed3,
 Proof. exact F5_refuted_handover. Qed.
 Print Assumptions C13_F5_refuted_handover.
 
-Theorem C13_F9_refuted :
-  wf_lreqb w9_req = true /\ g_F9_query w9_req QBody = true /\ guards_fire w_decode w7_find repo_now w9_req = true /\
-  s_handover (serve_decision w_decode w7_find repo_now w9_req) = Some {| ho_headers := [("X-Body", "{""user"":1}")]%string; ho_cookies := [] |} /\
-  s_handover (serve_envoy w_decode w7_find repo_now w9_req) = Some {| ho_headers := [("X-Body", json_empty_string)]; ho_cookies := [] |} /\
-  guards_fire w_decode w7_find all_fixed w9_req = false /\
-  serve_decision w_decode w7_find all_fixed w9_req = serve_envoy w_decode w7_find all_fixed w9_req.
+Theorem C13_F9_pinned_refuted :
+  wf_lreqb w9_req = true /\ g_F9_query w9_req QBody = true /\ guards_fire w_decode w7_find tree_F9 w9_req = true /\
+  s_handover (serve_decision w_decode w7_find tree_F9 w9_req) = Some {| ho_headers := [("X-Body", "{""user"":1}")]%string; ho_cookies := [] |} /\
+  s_handover (serve_envoy w_decode w7_find tree_F9 w9_req) = Some {| ho_headers := [("X-Body", json_empty_string)]; ho_cookies := [] |} /\
+  guards_fire w_decode w7_find repo_now w9_req = false /\
+  serve_decision w_decode w7_find repo_now w9_req = serve_envoy w_decode w7_find repo_now w9_req.
 Proof. exact F9_refuted. Qed.
-Print Assumptions C13_F9_refuted.
+Print Assumptions C13_F9_pinned_refuted.
 
-Theorem C13_F11_refuted :
-  wf_lreqb w11_req = true /\ g_F11 w11_req = true /\ guards_fire w_decode w11_find repo_now w11_req = true /\
-  s_handover (serve_decision w_decode w11_find repo_now w11_req) = Some {| ho_headers := [("X-User", "abc"); ("X-Q", "x=1")]%string; ho_cookies := [] |} /\
-  s_handover (serve_envoy w_decode w11_find repo_now w11_req) = Some {| ho_headers := [("X-User", "abc?x=1"); ("X-Q", "")]%string; ho_cookies := [] |} /\
-  s_err (serve_decision w_decode w11_find_literal repo_now w11_req) = None /\
-  s_err (serve_envoy w_decode w11_find_literal repo_now w11_req) = Some ENoRule /\
-  guards_fire w_decode w11_find all_fixed w11_req = false /\
-  serve_decision w_decode w11_find all_fixed w11_req = serve_envoy w_decode w11_find all_fixed w11_req.
+Theorem C13_F11_pinned_refuted :
+  wf_lreqb w11_req = true /\ g_F11 w11_req = true /\ guards_fire w_decode w11_find tree_F11 w11_req = true /\
+  s_handover (serve_decision w_decode w11_find tree_F11 w11_req) = Some {| ho_headers := [("X-User", "abc"); ("X-Q", "x=1")]%string; ho_cookies := [] |} /\
+  s_handover (serve_envoy w_decode w11_find tree_F11 w11_req) = Some {| ho_headers := [("X-User", "abc?x=1"); ("X-Q", "")]%string; ho_cookies := [] |} /\
+  s_err (serve_decision w_decode w11_find_literal tree_F11 w11_req) = None /\
+  s_err (serve_envoy w_decode w11_find_literal tree_F11 w11_req) = Some ENoRule /\
+  guards_fire w_decode w11_find repo_now w11_req = false /\
+  serve_decision w_decode w11_find repo_now w11_req = serve_envoy w_decode w11_find repo_now w11_req.
 Proof. exact F11_refuted. Qed.
-Print Assumptions C13_F11_refuted.
+Print Assumptions C13_F11_pinned_refuted.
 
 Theorem C13_F8_refuted :
   g_F8_query QHeaders = true /\ guards_fire w_decode w8_find repo_now w6_req = true /\
@@ -349,16 +346,19 @@ Print Assumptions C13_nonvacuous_redirect.
 (** Described by X-Forwarded-Method / -Proto / -Host / -Uri from a trusted proxy (how an API gateway uses
     the decision service) a logical request gives the same method, scheme, host, path and query as when
     a service receives it directly, unless the query is not its own re-encoding (C13-F10) *)
-Theorem C13_deployed_decision_same_url : forall L,
-  wf_lreqb L = true -> nonempty (l_method L) = true -> g_F10 L = false ->
-  url_parts (view_tp L) = url_parts (view_direct L).
+Theorem C13_deployed_decision_same_url : forall fixed_F10 L,
+  wf_lreqb L = true -> nonempty (l_method L) = true -> fixed_F10 || negb (g_F10 L) = true ->
+  url_parts (view_tp fixed_F10 L) = url_parts (view_direct L).
 Proof. exact deployed_decision_same_url. Qed.
 Print Assumptions C13_deployed_decision_same_url.
 
+(** C13-F10 (open; [false] = the tree as it is, [true] = the candidate repair fixes/C13-F10.diff) *)
 Theorem C13_F10_refuted :
   wf_lreqb (w10_req "b=2&a=1") = true /\ g_F10 (w10_req "b=2&a=1") = true /\
-  v_query (view_direct (w10_req "b=2&a=1")) = "b=2&a=1"%string /\ v_query (view_tp (w10_req "b=2&a=1")) = "a=1&b=2"%string /\
-  v_query (view_tp (w10_req "q=a%20b")) = "q=a+b"%string /\ v_query (view_tp (w10_req "a=1;b=2")) = ""%string /\
-  g_F10 (w10_req "a=1&b=2") = false /\ url_parts (view_tp (w10_req "a=1&b=2")) = url_parts (view_direct (w10_req "a=1&b=2")).
+  v_query (view_direct (w10_req "b=2&a=1")) = "b=2&a=1"%string /\ v_query (view_tp false (w10_req "b=2&a=1")) = "a=1&b=2"%string /\
+  v_query (view_tp false (w10_req "q=a%20b")) = "q=a+b"%string /\ v_query (view_tp false (w10_req "a=1;b=2")) = ""%string /\
+  g_F10 (w10_req "a=1&b=2") = false /\ url_parts (view_tp false (w10_req "a=1&b=2")) = url_parts (view_direct (w10_req "a=1&b=2")) /\
+  url_parts (view_tp true (w10_req "b=2&a=1")) = url_parts (view_direct (w10_req "b=2&a=1")) /\
+  v_query (view_tp true (w10_req "a=1;b=2")) = "a=1;b=2"%string.
 Proof. exact F10_refuted. Qed.
 Print Assumptions C13_F10_refuted.
